@@ -12,7 +12,32 @@ def events(nops, nnodes):
             ev.append(f"REG {o} {s}"); ev.append(f"ACK {o} {s}")
     return ev
 
+def cluster_stage(tier, seed):
+    """C15 where pending operations are actually made: real elections in a simulated cluster (the scenarios of C07 — formation, forced
+    elections on every node, the primary dying once and twice) with nodes whose bind address differs from the address their peers know them
+    by; at the end of each, no node may hold a pending operation registered for ITSELF (nobody could acknowledge it)"""
+    from vlib import cluster, netrunner
+    from checks import c07
+    S = [(n, f) for (n, f) in c07.scenarios("quick") if any(t in n for t in ("form", "force-n", "primary-dies"))]
+    if tier == "quick": S = S[::4]
+    fails = []; ran = 0
+    for ix, (name, fn) in enumerate(S):
+        net = cluster.Net(f"C15_cluster_{ix}", with_model=False)
+        try:
+            fn(net, core.XorShift(seed * 7919 + ix + 1))
+            for f in netrunner.pending_rules(net):
+                f.case = list(net.script); f.noshrink = True; fails.append(f)
+            ran += 1
+        except Exception as e:
+            pass
+        finally:
+            net.close()
+    return dict(obligations=[("cluster stage ran", ran > 0, f"{ran} of {len(S)} election scenarios")], failures=fails, evaluations=ran,
+                coverage=dict(cluster_stage=dict(scenarios=ran, rule="no node holds a pending operation registered for itself after real elections (bind address != external address)")))
+
 class C15(Spec):
+    def extra_stage(self, tier, seed): return cluster_stage(tier, seed)
+
     pid = "C15"
     lean_module = "NunVerif.Props.C15"
     theorems = ["Nun.C15_ack_unknown_noop", "Nun.C15_ack_idempotent", "Nun.C15_ack_foreign_keeps_counts",
